@@ -9,6 +9,7 @@ from engine import pat
 from engine.util import where
 
 RULES = {
+    "R-06.9": "inside dns/name.py a Name is never compared by identity (`is` / `is not`) with the module's Name constants root / empty: equal names are distinct objects (Name([]), a relativized origin, an unpickled copy), so identity makes equal names behave differently",
     "R-06.8": "the predecessor padding never builds a label above 63 octets: _pad_to_max_name appends 63-octet labels while more than 64 octets are left (each costs 64 on the wire) and a last label of needed-1 <= 63 octets; _pad_to_max_label extends a label by at most 63 - len(label)",
     "R-06.1": "each rich comparison of Name returns fullcompare(other)[1] <op> 0 with the operator its name says; foreign operands give NotImplemented / False / True",
     "R-06.2": "fullcompare folds BOTH labels with the same normaliser, __hash__ folds every octet with it, canonicalize() uses it",
@@ -65,6 +66,10 @@ def check_operator_table(model, rep, rule, cls_q, subject_ok, same_type_test, na
                 # the operator is not derived from the shared three-way comparison at all: coherence with the other operators is lost by construction
                 rep.bad(rule, con, where(f, cmp_rets[0].ast), f"{name} returns `{src(cmp_rets[0].ast.value)[:70]}`, which is not derived from the shared three-way comparison: "
                         "it can disagree with the ordering operators and with __hash__ (e.g. label boundaries or case folding handled differently)", stmt="table")
+            elif subject_ok(lhs) or subject_ok(rhs):
+                # derived from the three-way result, but not through its SIGN: the result is any integer (e.g. a label-count difference), only `op 0` is meaningful
+                rep.bad(rule, con, where(f, cmp_rets[0].ast), f"{name} returns `{src(cmp_rets[0].ast.value)[:70]}`: the three-way result is compared with something other than 0 "
+                        f"(`{got} {rhs}`), but only its sign is defined - for an ancestor/descendant pair it is the label-count difference, so the operator disagrees with the others", stmt="table")
             else:
                 rep.blind(rule, con, where(f, cmp_rets[0].ast), f"comparison `{src(cmp_rets[0].ast.value)}` is not `<three-way result> op 0`", stmt="table")
             continue
@@ -368,6 +373,25 @@ def run(model, rep, tier):
     pl = model.func("dns.name._pad_to_max_label")
     rep.check(pat.has_expr(pl.node, "min(63 - __length, __remaining)") or pat.has_expr(pl.node, "min(__remaining, 63 - __length)"), "R-06.8", pl.qualname, where(pl, pl.node),
               "a label is extended by min(63 - len(label), room left in the name)", "the label extension is no longer bounded by 63 - len(label) and the room left in the name", stmt="pad-label")
+    # ---------------------------------------------------------------- R-06.9
+    nm = model.modules["dns.name"]
+    name_consts = set()
+    for k_, v_ in nm.assigns.items():
+        if isinstance(v_, ast.Call) and src(v_.func) == "Name":
+            name_consts.add(k_)
+    n_id = 0
+    for f9 in sorted(model.all_functions(), key=lambda g: g.qualname):
+        if f9.module.name != "dns.name":
+            continue
+        for c in ast.walk(f9.node):
+            if isinstance(c, ast.Compare) and len(c.ops) == 1 and isinstance(c.ops[0], (ast.Is, ast.IsNot)):
+                for side in (c.left, c.comparators[0]):
+                    if isinstance(side, ast.Name) and side.id in name_consts:
+                        n_id += 1
+                        rep.bad("R-06.9", f9.qualname, where(f9, c), f"`{src(c)}` compares a name by identity with the constant `{side.id}`: a name equal to it but not that object "
+                                "(Name([]), the origin relativized to itself, a copy) takes the other branch, so equal names behave differently", stmt=f"identity {side.id}")
+    rep.floor("R-06.9-name-constants", len(name_consts), 2)
+    rep.ok("R-06.9", "dns.name", "dns/name.py", f"no identity comparison with the Name constants {sorted(name_consts)}", stmt="no-identity-compare")
     rep.meta["explanation"] = (
         "Names are touched only through comparisons, a finite structure: the operator table, the single normaliser shared by compare/hash/canonical forms, "
         "the mirrored arms of fullcompare and the relativity guards are read from the AST and compared with RFC 4034 6.1. Totality/transitivity follow from these plus "
@@ -385,6 +409,10 @@ def _blocks(fn):
 
 
 WITNESSES = [
+    {"id": "c06-parent-empty-by-identity", "rule": "R-06.9", "file": "dns/name.py", "expect": "fires",
+     "old": "        if self == root or self == empty:\n            raise NoParent", "new": "        if self == root or self is empty:\n            raise NoParent"},
+    {"id": "c06-le-compares-with-value-set", "rule": "R-06.1", "file": "dns/name.py", "expect": "fires",
+     "old": "            return self.fullcompare(other)[1] <= 0", "new": "            return self.fullcompare(other)[1] in (-1, 0)"},
     {"id": "c06-pad-loop-bound-65", "rule": "R-06.8", "file": "dns/name.py", "expect": "fires",
      "old": "    while needed > 64:\n        new_labels.append(_MAXIMAL_OCTET * 63)", "new": "    while needed > 65:\n        new_labels.append(_MAXIMAL_OCTET * 63)"},
     {"id": "c06-twin-pad-loop-ge-65", "rule": "R-06.8", "file": "dns/name.py", "expect": "silent",
